@@ -141,6 +141,20 @@ func showErrs(es []error) string {
 	return strings.Join(l, ",")
 }
 
+// errScratch is reused for every AddErrorList call, the way a caller collecting errors per row
+// reuses one buffer: a container that adopts the caller's slice instead of copying it shows up as
+// errors changing afterwards.
+var errScratch = make([]error, 0, 16)
+
+func scratchErrs(s string) []error {
+	errScratch = errScratch[:0]
+	for i := range errScratch[:cap(errScratch)] {
+		errScratch[:cap(errScratch)][i] = idErr{-7}
+	}
+	errScratch = append(errScratch, parseErrs(s)...)
+	return errScratch
+}
+
 func parseErrs(s string) []error {
 	var out []error
 	for _, e := range listOf(s) {
@@ -1206,7 +1220,7 @@ func (x *Exec) do1(line string) (res string, leanLine string) {
 		}
 		return "ok", line
 	case "rowadderrlist":
-		x.rows[idOf(toks[1])].AddErrorList(parseErrs(toks[2]))
+		x.rows[idOf(toks[1])].AddErrorList(scratchErrs(toks[2]))
 		return "ok", line
 	case "tadderr":
 		for _, e := range parseErrs(toks[2]) {
@@ -1214,7 +1228,7 @@ func (x *Exec) do1(line string) (res string, leanLine string) {
 		}
 		return "ok", line
 	case "tadderrlist":
-		x.tables[idOf(toks[1])].AddErrorList(parseErrs(toks[2]))
+		x.tables[idOf(toks[1])].AddErrorList(scratchErrs(toks[2]))
 		return "ok", line
 	case "obs":
 		return x.obsTable(idOf(toks[1])), line
@@ -1246,6 +1260,11 @@ func (x *Exec) do1(line string) (res string, leanLine string) {
 		cp := *p
 		x.copies = append(x.copies, &cp)
 		return fmt.Sprintf("Y%d", len(x.copies)-1), line
+	case "copyobs": // observe a by-value copy of a cell held by the caller
+		return obsCell(*x.copies[idOf(toks[1])]), line
+	case "copyupdate": // Update() on the copy only
+		x.copies[idOf(toks[1])].Update()
+		return "ok", line
 	case "setprop":
 		err := x.owner(toks[1]).SetProperty(parseKey(toks[2]), parseVal(toks[3]))
 		if err != nil {
@@ -1402,7 +1421,7 @@ func (x *Exec) do1(line string) (res string, leanLine string) {
 			x.ecs[idOf(toks[1])].AddErrorList(nil)
 			return "ok", "ecaddlist " + toks[1] + " []"
 		}
-		x.ecs[idOf(toks[1])].AddErrorList(parseErrs(toks[2]))
+		x.ecs[idOf(toks[1])].AddErrorList(scratchErrs(toks[2]))
 		return "ok", line
 	case "ecerrors":
 		es := x.ecs[idOf(toks[1])].Errors()
